@@ -42,7 +42,15 @@ class RemoveAnyNeverTransformer(cst.CSTTransformer):
   effect that all downstream code starts to get treated as unreachable.
   """
 
-  def _is_any_or_never(self, annotation: expression.Annotation | None):
+  def _is_any_or_never(self, annotation: expression.BaseExpression | None):
+    if (
+        isinstance(annotation, expression.Attribute)
+        and isinstance(annotation.value, expression.Name)
+        and annotation.value.value == "typing"
+    ):
+      # The stub printer writes `typing.Any` when the module defines its own
+      # `Any`.
+      annotation = annotation.attr
     return (
         annotation
         and isinstance(annotation, expression.Name)
